@@ -17,7 +17,7 @@ RULE = ('designs of strata S1, S1x, S2, S3, S4, S5, S6 (vt/gen.py; quick = fixed
 ASSUMPTIONS = ['an exhausted RandomGen returns the same set whatever the PRNG seed (checked under the VERIF_SEED given)']
 BUDGET_S = {'quick': 60, 'thorough': 300}
 STRATA = ['S1', 'S1x', 'S2', 'S3', 'S4', 'S5', 'S6']
-QUICK_CAPS = {'S1': 260, 'S1x': 60, 'S2': 110, 'S3': 80, 'S4': 80, 'S5': 70, 'S6': 40}
+QUICK_CAPS = dsw.QUICK_CAPS
 CAP = {'quick': 400, 'thorough': 4000}
 
 
